@@ -128,22 +128,32 @@ def check(ctx):
     from ..facademodel import Rec, _writes, accessor as _acc, model_facade
     from .c14 import build_heater
     gcc = repo.cls("GeckoConstants")
+    n_pm = 0
     for nm in ("set_mode", "async_set_mode"):
-        rec = Rec()
-        accs = {"StateKey": _acc(rec, "StateKey", "OFF"), "UdDEV": _acc(rec, "UdDEV", "OFF"), "UdOTHER": _acc(rec, "UdOTHER", "OFF")}
-        fac, _spa = model_facade(rec, accs)
-        it = Interp(repo, max_depth=12)
-        try:
-            pump = it.apply(ClassRef(repo.cls("GeckoPump")), [fac, "DEV", ("Pump", 1, "StateKey", "PUMP"), {"demand": "UdDEV", "options": ["OFF", "HI"]}], {})
-            rec.log.clear()
-            before = {k: a.attrs["value"] for k, a in accs.items()}
-            it.steps = 0
-            it.call(repo.method("GeckoPump", nm), pump, ["HI"])
-        except (PyRaise, Undecided) as e:
-            raise _AE(f"GeckoPump.{nm}: {e}")
-        cmds = _writes(rec, accs, before)
-        ctx.ob("R4", f"GeckoPump.{nm}::writes-demand-item", cmds == [("write", "UdDEV", "HI")],
-               f"GeckoPump.{nm}('HI') on a pump matched with demand UdDEV performs {cmds}, expected exactly one write of 'HI' to UdDEV", repo.method("GeckoPump", nm).loc)
+        # every current state: what the output reads (StateKey) and what the demand item holds are different
+        # things (a pump whose demand was just set still reads OFF; a filter cycle runs the pump with demand OFF)
+        for out_state in ("OFF", "HI", "LO"):
+            for demand in ("OFF", "HI", "LO"):
+                for mode in ("OFF", "LO", "HI"):
+                    rec = Rec()
+                    accs = {"StateKey": _acc(rec, "StateKey", out_state), "UdDEV": _acc(rec, "UdDEV", demand), "UdOTHER": _acc(rec, "UdOTHER", "OFF")}
+                    fac, _spa = model_facade(rec, accs)
+                    it = Interp(repo, max_depth=12)
+                    try:
+                        pump = it.apply(ClassRef(repo.cls("GeckoPump")), [fac, "DEV", ("Pump", 1, "StateKey", "PUMP"), {"demand": "UdDEV", "options": ["OFF", "LO", "HI"]}], {})
+                        rec.log.clear()
+                        before = {k: a.attrs["value"] for k, a in accs.items()}
+                        it.steps = 0
+                        it.call(repo.method("GeckoPump", nm), pump, [mode])
+                    except (PyRaise, Undecided) as e:
+                        raise _AE(f"GeckoPump.{nm}: {e}")
+                    cmds = _writes(rec, accs, before)
+                    n_pm += 1
+                    ctx.ob("R4", f"GeckoPump.{nm}::writes-demand-item" if (out_state, demand, mode) == ("OFF", "OFF", "HI") else f"GeckoPump.{nm}::output={out_state}::demand={demand}::request={mode}",
+                           cmds == [("write", "UdDEV", mode)],
+                           f"GeckoPump.{nm}({mode!r}) on a pump whose output reads {out_state!r} and whose demand item UdDEV holds {demand!r} performs {cmds}, expected exactly one write of {mode!r} to UdDEV "
+                           f"(a pump mode is a demand: it is sent for every current state)", repo.method("GeckoPump", nm).loc)
+    ctx.floor("R4", "pump mode valuations (output x demand x request x writer)", n_pm, 54)
     K = {k: repo.fold(gcc.consts[k], gcc.mod, gcc) for k in ("KEY_TEMP_UNITS", "KEY_SETPOINT_G")}
     for nm in ("set_target_temperature", "async_set_target_temperature"):
         it = Interp(repo, max_depth=12)
